@@ -161,8 +161,26 @@ impl<IO> Connection<IO> {
                 break Ok(Some(response));
             }
 
+            #[cfg(mpd_client_verif)]
+            crate::verif::emit(
+                "rx_wait",
+                &[
+                    ("filled", self.total_received as i64),
+                    ("blen", self.recv_buf.len() as i64),
+                    ("inprog", response_builder.is_frame_in_progress() as i64),
+                ],
+            );
             let (_, amount_read) =
                 read_to_buffer(&mut self.io, &mut self.recv_buf, &mut self.total_received)?;
+            #[cfg(mpd_client_verif)]
+            crate::verif::emit(
+                "rx_read",
+                &[
+                    ("n", amount_read as i64),
+                    ("filled", self.total_received as i64),
+                    ("blen", self.recv_buf.len() as i64),
+                ],
+            );
 
             if amount_read == 0 {
                 break if response_builder.is_frame_in_progress() || self.total_received != 0 {
@@ -397,9 +415,27 @@ impl<IO> AsyncConnection<IO> {
 
             #[cfg(mpd_client_verif)]
             verif_guard.suspend(response_builder.is_frame_in_progress());
+            #[cfg(mpd_client_verif)]
+            crate::verif::emit(
+                "rx_wait",
+                &[
+                    ("filled", self.0.recv_buf.len() as i64),
+                    ("blen", -1),
+                    ("inprog", response_builder.is_frame_in_progress() as i64),
+                ],
+            );
             let read = self.0.io.read_buf(&mut self.0.recv_buf).await?;
             #[cfg(mpd_client_verif)]
             verif_guard.resume();
+            #[cfg(mpd_client_verif)]
+            crate::verif::emit(
+                "rx_read",
+                &[
+                    ("n", read as i64),
+                    ("filled", self.0.recv_buf.len() as i64),
+                    ("blen", -1),
+                ],
+            );
             trace!(read);
 
             if read == 0 {
